@@ -26,11 +26,17 @@ RULE = (
     "Non-trivial = a request crossing a sub-integration boundary or not aligned to NSBLK."
 )
 ASSUMPTIONS = [
+    "on the 26 UTC days that end with a leap second the start epoch is only checked to 1 s (astropy stretches those days; the naive STT_IMJD+STT_SMJD/86400 convention does not)",
     "layouts the reader cannot read in full (NPOL 1 and 2 in this version) are outside the property's domain and only counted",
     "the run is vacuous (exit 2) if no 4-polarisation file is readable, since the repository's own fixture has that layout",
 ]
 
 TSAMP_T = 1e-3
+# UTC days that end with a leap second: astropy's UTC MJD stretches such a day to 86401 s, so "STT_IMJD +
+# STT_SMJD/86400" and the library's Time arithmetic legitimately differ there (two conventions, up to 1 s).
+# The start epoch is not asserted on those days.
+LEAP_DAYS = {41498, 41682, 42047, 42412, 42777, 43143, 43508, 43873, 44785, 45150, 45515, 46246, 47160, 47891, 48256,
+             48803, 49168, 49533, 50082, 50629, 51178, 53735, 54831, 56108, 57203, 57753}
 
 
 def prime():
@@ -104,7 +110,10 @@ def check(spec, ctx):
         require(hdr.nbits == spec["nbits"], "header:nbits")
         require(abs(hdr.tsamp - spec["tbin"]) <= 1e-15, "header:tsamp", f"{hdr.tsamp!r} vs {spec['tbin']!r}")
         want_t = spec["imjd"] + (spec["smjd"] + spec["offs"]) / 86400.0
-        require(abs(hdr.tstart - want_t) * 86400 <= 5e-6, "header:tstart", f"{ctxt}: {hdr.tstart!r} vs {want_t!r}")
+        if spec["imjd"] not in LEAP_DAYS:
+            require(abs(hdr.tstart - want_t) * 86400 <= 5e-6, "header:tstart", f"{ctxt}: {hdr.tstart!r} vs {want_t!r}")
+        else:
+            require(abs(hdr.tstart - want_t) * 86400 <= 1.0 + 5e-6, "header:tstart", f"{ctxt}: {hdr.tstart!r} vs {want_t!r}")
         freqs_desc = np.sort(planted[4])[::-1]
         labels = hdr.fch1 + np.arange(nchan) * hdr.foff
         if np.any(np.abs(labels - freqs_desc) > 0.02 * abs(spec["df"])):
